@@ -294,6 +294,7 @@ func (x *fx) frameGoal(env *Env, fam string) (Term, error) {
 	fc := x.fc
 	oldEnv := *env
 	oldEnv.st = x.entry
+	oldEnv.inOld = true // modifies lists name the objects as they were at entry
 	conds := []string{"(< 0 r)", "(< r " + x.entry.alloc + ")"}
 	for _, m := range fc.Mod(e.profile).Exprs {
 		tv, err := oldEnv.eval(m)
